@@ -257,6 +257,20 @@ def totals_ok(ctx, o):
     return True
 
 
+def tolerant_equal(ctx, a, b):
+    """bitwise equality expected (same code, same data, same machine); should a BLAS / FFT kernel ever round differently
+    for differently aligned buffers in the two processes, a relative difference <= 1e-12 is tolerated and counted"""
+    d = objs.analysis_equal(a, b)
+    if d is None:
+        return None
+    if a.get("e_windowsize") != b.get("e_windowsize"):
+        return d
+    d2 = objs.analysis_equal(a, b, rtol=1e-12)
+    if d2 is None:
+        ctx.probe("ulp_level_diff")
+    return d2
+
+
 def check_gm(ctx, ref, o, eff, fft, hist, mode):
     """the session object's analysis must equal the pristine reference bit for bit"""
     pl = objs.plain(o)
@@ -267,12 +281,12 @@ def check_gm(ctx, ref, o, eff, fft, hist, mode):
             return False
         per, dv, ddv = r[1]
         for e in o.mc_names:
-            d = objs.analysis_equal(objs.analysis_of(o, e), per[e])
+            d = tolerant_equal(ctx, objs.analysis_of(o, e), per[e])
             ctx.compared += 1
             if d:
                 ctx.violation("c03.history", "gamma_method", _src(eff, e), "ensemble %s differs from the analysis in a pristine process (dict-supplied parameters): %s [history: %s]" % (e, d, hist))
                 return False
-        if dv != float(o.dvalue) or ddv != float(o.ddvalue):
+        if not (abs(dv - float(o.dvalue)) <= 1e-12 * max(dv, 1e-300) and abs(ddv - float(o.ddvalue)) <= 1e-12 * max(ddv, 1e-300)):
             ctx.violation("c03.history", "gamma_method", "totals", "dvalue/ddvalue %r/%r vs pristine %r/%r" % (o.dvalue, o.ddvalue, dv, ddv))
             return False
         return True
@@ -285,7 +299,7 @@ def check_gm(ctx, ref, o, eff, fft, hist, mode):
         if r[0] != "ok":
             ctx.violation("c03.history", "gamma_method", "ref_raised", "session analysis succeeded, pristine single-ensemble reference for %s raised %s: %s" % (e, r[1], r[2]))
             return False
-        d = objs.analysis_equal(objs.analysis_of(o, e), r[1])
+        d = tolerant_equal(ctx, objs.analysis_of(o, e), r[1])
         if d:
             ctx.violation("c03.history", "gamma_method", _src(eff, e), "ensemble %s differs from the pristine single-ensemble analysis with explicit parameters %r: %s [history: %s]" % (e, kw, d, hist))
             return False
@@ -476,6 +490,9 @@ def execute(plan, ctx):
                 continue
             if isinstance(res, pe.Obs):
                 d = objs.plain_equal(objs.plain(res), r[1])
+                if d and np.isfinite(res.value) and objs.plain_close(objs.plain(res), r[1]):
+                    ctx.probe("ulp_level_diff")        # alignment-dependent rounding between two processes: tolerated, counted
+                    d = None
                 if d:
                     ctx.violation("c03.derive_history", "arithmetic", op["f"], "result of %s on analysed=%s/%s operands differs from fresh copies: %s" % (
                         op["f"], analysed[i], analysed[op["j"] % len(pool)] if b is not None else "-", d))
